@@ -121,8 +121,10 @@ theorem inv_remove_buckets {s : State} (hi : Inv s) {b : Bytes} {t : Tree} {p : 
     · subst he; exact hi.paths _ hmem _ (alErase_mem hx)
     · exact hi.paths e he x hx
 
-/-- `delete_object` comparable: names agree; for admissible names the bucket exists and the key names a file
-    [else fs:delete-missing-key-error, fs:missing-bucket-reported-as-missing-key, fs:leftover-directory] -/
+/-- `delete_object` comparable: names agree; for admissible names, when the bucket exists the path is not a leftover
+    directory [else fs:leftover-directory]. A key that does not exist (success on both sides; before:
+    fs:delete-missing-key-error) and a missing bucket (`NoSuchBucket` on both sides; before:
+    fs:missing-bucket-reported-as-missing-key) are inside since fe75a0e -/
 def DeleteOk (s : State) (b k : Bytes) : Prop :=
   NameOk b ∧ CanonKey k ∧
   (bucketOk b = true →
@@ -130,8 +132,8 @@ def DeleteOk (s : State) (b k : Bytes) : Prop :=
     | none => True
     | some p =>
       match s.tree b with
-      | none => False
-      | some t => isFile (t.node p) = true)
+      | none => True
+      | some t => ReadableNode (t.node p))
 
 theorem delete_refines (H : Hashes) (dl : Nat) {s : State} (hi : Inv s) {b k : Bytes} (hg : DeleteOk s b k) :
     (step H dl s (.deleteObject b k)).2 = (StoreSpec.step H (abs s) (.deleteObject b k)).2 ∧
@@ -149,17 +151,32 @@ theorem delete_refines (H : Hashes) (dl : Nat) {s : State} (hi : Inv s) {b k : B
       rw [hkp] at hcanon hbucket
       simp only at hcanon hbucket
       cases ht : s.tree b with
-      | none => rw [ht] at hbucket; exact absurd hbucket (by simp)
+      | none =>
+        have habs : (abs s).bucket b = none := by rw [abs_bucket, ht]; rfl
+        simp [step, StoreSpec.step, objPath, hbd, hkp, hbo, hko, habs, ht, hi]
       | some t =>
         rw [ht] at hbucket
         simp only at hbucket
         have hp : PathOk p := keyPath_pathOk hkp
         have habs : (abs s).bucket b = some (absTree s b t) := by rw [abs_bucket, ht]; rfl
         cases hn : t.node p with
-        | none => rw [hn] at hbucket; simp [isFile] at hbucket
+        | none =>
+          -- nothing to delete: the store erases a key it does not hold and puts the bucket back
+          have hlook := abs_lookup_obj hi ht hp
+          rw [hcanon, hn] at hlook
+          simp only [Option.bind_none] at hlook
+          have hstep : step H dl s (.deleteObject b k) = (s, .ok) := by
+            simp [step, objPath, hbd, hkp, ht, hn]
+          have hsame : alInsert b (alErase k (absTree s b t)) (abs s).buckets = (abs s).buckets := by
+            rw [alErase_absent hlook]
+            exact alInsert_same (by simpa [Store.bucket] using habs)
+          have hspec : StoreSpec.step H (abs s) (.deleteObject b k) = (abs s, .ok) := by
+            simp [StoreSpec.step, hbo, hko, habs, hsame]
+          rw [hstep, hspec]
+          exact ⟨rfl, rfl, hi⟩
         | some n =>
           cases n with
-          | dir => rw [hn] at hbucket; simp [isFile] at hbucket
+          | dir => rw [hn] at hbucket; exact absurd hbucket (by simp [ReadableNode])
           | file c =>
             have hstep : step H dl s (.deleteObject b k) = (s.setTree b (alErase p t), .ok) := by
               simp [step, objPath, hbd, hkp, ht, hn, hslash]
